@@ -18,7 +18,7 @@ import sys
 from multiprocessing import Pool
 
 from harness import tlc, tracecheck, MachineryError, runner
-from harness.clientdrive import run_schedule
+from harness.clientdrive import run_schedule, causal_order
 
 MODEL_TUNING = {"ACK_TIMEOUT": 2.0, "ACK_RANDOM_FACTOR": 1.5}
 
@@ -400,6 +400,25 @@ def check(rep, args, prefix, emphasis):
                 meta = results[i]["meta"]
                 if meta["loop_exceptions"]:
                     rep.add_drift("exception in event loop during client schedule: %s" % meta["loop_exceptions"][:1])
+        # strict validation: every recorded execution must be a behaviour of MsgClient itself (all in TLC)
+        strict_total = strict_ok = 0
+        for ckey, idxs in groups.items():
+            consts = dict(ckey)
+            straces = []
+            for i in idxs:
+                init = dict(results[i]["events"][0], k="init", t=0, mid=all_scheds[i]["mid0"] & 0xFFFF, q=0, r=0, ty="", cls="", con=False, g=0)
+                straces.append([init] + causal_order(results[i]["events"]))
+            prog = tracecheck.validate_strict(wd, "MsgClientStrict", "MsgClientStrict.cfg.tmpl", consts, straces)
+            for i, (reached, n) in zip(idxs, prog):
+                strict_total += 1
+                if reached >= n:
+                    strict_ok += 1
+                else:
+                    nxt = straces[idxs.index(i)][reached] if reached < n else None
+                    rep.add_drift("recorded execution is not a behaviour of MsgClient.tla: %d of %d events explained; next event %s"
+                                  % (reached, n, {k: nxt[k] for k in ("k", "t", "r", "ty", "mid", "q", "cls")} if nxt else None))
+        rep.coverage["strict_traces_checked"] = strict_total
+        rep.coverage["strict_traces_explained_by_model"] = strict_ok
         if design_violation is not None:
             # the model itself admits a bad state: only a reproduced real trace counts
             # (the counterexample was replayed above as part of model_scheds)
